@@ -189,6 +189,19 @@ func (e *Engine) CheckObs() {
 	if e.failed || !e.P.Cfg.Obs || e.ObsImpl != nil {
 		return
 	}
+	e.mu.Lock()
+	mismatch := e.obsCtxMismatch
+	e.mu.Unlock()
+	if e.extraObs != nil {
+		if msg := e.extraObs.problem(); msg != "" {
+			e.fail("obs:earlier-observer-unbalanced", "%s", msg)
+			return
+		}
+	}
+	if mismatch != "" {
+		e.fail("obs:complete-got-another-context", "a %s complete callback was handed a context that is not the one its start callback returned (a copy or a child of it)", mismatch)
+		return
+	}
 	pubTok := map[uint64]uint64{} // eid -> token
 	tokPub := map[uint64]uint64{}
 	starts := map[uint64]TEv{}
